@@ -76,7 +76,7 @@ def run(ctx: Ctx) -> None:
                 f"{ac.MAX_CELLS} cells; non-trivial = the constructor accepted the input and at least one operation changed the "
                 "number of cells; distinct = distinct (cells, operations, fixed marks, tolerances)")
     ctx.assumptions.append("inputs are well-typed YAML trees (numbers, strings, dicts); type errors are outside the model")
-    n = min(ctx.n(700, 12000), 5000)   # the x20 extended search is capped: histories are expensive
+    n = min(ctx.n(1000, 5000), 5000)   # the x20 extended search is capped: histories are expensive
     pending: list = []
     seeds = getattr(ctx, "seed_inputs", None) or []
     for s in seeds[:20]:
